@@ -698,7 +698,7 @@ fn run_n<const N: usize>(c: &mut Ctx, keys: usize, msgs: usize) {
 pub fn run(c: &mut Ctx) {
     c.note(
         "rule",
-        json!("For every N in {1,2,3,5,8,13} and every key pair k: (a) chain cases, one per message number: message entries from EDGE={0,1,q-1,small,2^63-1,2^63,random,2^63|r,2^64-1} (numbers 0-8 constant class, 9-17 cyclic layouts, 18+ random class per coordinate); the signature starts from sign (message number + key number even) or request-proof -> blind_sign -> unblind (odd), followed by 0-3 random steps of randomize / blind_and_randomize(bf in {0,1,q-1,random}) [-> BlindedSignature::randomize] -> unblind, verified after every step; the final signature is compared on the right message, on every coordinate changed by +1 and to a random value (plus -1 / another EDGE value on one coordinate; all coordinates in the thorough tier), on two exchanged coordinates, under a second key, and after blinding again and unblinding with the matching factor and with wrong ones (+1, random, 0, negated). (b) attacker cases: signatures decoded from bytes (honest bytes, re-randomised outside the API, forged with the secret scalars read from the key pair's wire form, off by one, (P,xP), random points, sigma2 = identity, negated / exchanged halves, sigma1 = identity and all-identity which must not decode). (c) degenerate cases: ScriptRng returns 64 zero bytes at the scalar draw of randomize / blind_and_randomize / BlindedSignature::new / blind_sign, the resulting all-identity signature is tried on seven messages and after further API steps, next to its unscripted twin. Every verify call is compared with ps_verify_ref on atoms read from the wire. Distinct = (N, key, per-coordinate message classes, derivation chain, check) tuple."),
+        json!("For every N in {1,2,3,5,8,13} and every key pair k: (a) chain cases, one per message number: message entries from EDGE={0,1,q-1,small,2^63-1,2^63,random,2^63|r,2^64-1} (numbers 0-8 constant class, 9-17 cyclic layouts, 18+ random class per coordinate); the signature starts from sign (message number + key number even) or request-proof -> blind_sign -> unblind (odd), followed by 0-3 random steps of randomize / blind_and_randomize(bf in {0,1,q-1,random}) [-> BlindedSignature::randomize] -> unblind, verified after every step; the final signature is compared on the right message, on every coordinate changed by +1 and to a random value (plus -1 / another EDGE value on one coordinate; all coordinates in the thorough tier), on two exchanged coordinates, under a second key, and after blinding again and unblinding with the matching factor and with wrong ones (+1, random, 0, negated). (b) attacker cases: signatures decoded from bytes (honest bytes, re-randomised outside the API, forged with the secret scalars read from the key pair's wire form, off by one, (P,xP), random points, sigma2 = identity, negated / exchanged halves, sigma1 = identity and all-identity which must not decode). (c) degenerate cases: ScriptRng returns 64 zero bytes at the scalar draw of randomize / blind_and_randomize / BlindedSignature::new / blind_sign, the resulting all-identity signature is tried on seven messages and after further API steps, next to its unscripted twin. Every verify call is compared with ps_verify_ref on atoms read from the wire. Distinct = (N, key, per-coordinate message classes, derivation chain, check) tuple. Added later: zero-exponent messages, signing under zero windows, a crafted-key case. Word-sized message entries; is_well_formed compared with its definition."),
     );
     let keys = c.tier.pick(3usize, 10);
     let msgs = c.tier.pick(24usize, 80);
